@@ -13,6 +13,7 @@
 (*                 when the final total came out one short; hence every quota is within one of its members' sum      *)
 (*   ZeroPurged    plain / stolen mode: exactly the species with a positive quota stay listed                        *)
 (*   Parents       every species keeps min(n, floor(survival_thresh * n) + 1) organisms as parents                   *)
+(*   TopKept       ... and they are the top ones by (adjusted) fitness                                                  *)
 (*   Offspring     reproduction yields exactly the population size                                                   *)
 EXTENDS Quota, Json, IOUtils
 
@@ -42,10 +43,12 @@ ZeroPurged(ev) == ev.mode # "delta" => \A k \in Idx(ev) : ev.species[k].listed <
 Parents(ev) == \A k \in Idx(ev) :
     LET s == ev.species[k] IN
     \E f \in { FloorLo(s.tn, 2), FloorHi(s.tn, 2) } : s.kept = MinI(s.size, f + 1)
+\* the parents are the TOP organisms: nobody eliminated has a better (adjusted) fitness than somebody kept
+TopKept(ev) == \A k \in Idx(ev) : LET s == ev.species[k] IN s.er = 0 \/ s.kr <= s.er
 Offspring(ev) == ev.babies = ev.n /\ ev.after = ev.n
 
 Clauses(ev) == [TotalN |-> TotalN(ev), ExpectSum |-> ExpectSum(ev), FloorCarry |-> FloorCarry(ev),
-                ZeroPurged |-> ZeroPurged(ev), Parents |-> Parents(ev), Offspring |-> Offspring(ev)]
+                ZeroPurged |-> ZeroPurged(ev), Parents |-> Parents(ev), TopKept |-> TopKept(ev), Offspring |-> Offspring(ev)]
 AllTrue(c) == \A f \in DOMAIN c : c[f]
 
 Init == i = 0 /\ verdict = [ok |-> TRUE, clauses |-> <<>>]
